@@ -23,6 +23,8 @@ from icalendar.timezone import tzp
 PROTOCOLS = sorted({2, 3, pickle.DEFAULT_PROTOCOL, pickle.HIGHEST_PROTOCOL})
 KINDS = ("VCALENDAR", "VEVENT", "VTODO", "VTIMEZONE", "VALARM", "X-COMP", "FOO")
 UTC = timezone.utc
+from zoneinfo import ZoneInfo  # noqa: E402
+BERLIN = ZoneInfo("Europe/Berlin")
 
 # property menu: (name, builder of value, builder of a DIFFERENT value of the same class)
 MENU = [
@@ -38,6 +40,9 @@ MENU = [
     ("DTEND", lambda: date(2024, 5, 2), lambda: date(2024, 5, 3)),
     ("LOCATION", lambda: "Room; 1, a\\b", lambda: "Room; 1, a\\c"),
     ("EXDATE", lambda: [datetime(2024, 5, 1, 10, 0, tzinfo=UTC)], lambda: [datetime(2024, 5, 2, 10, 0, tzinfo=UTC)]),
+    # the same instant written in another zone is a different value (it serialises differently)
+    ("RDATE", lambda: [datetime(2024, 5, 1, 10, 0, tzinfo=UTC)], lambda: [datetime(2024, 5, 1, 12, 0, tzinfo=BERLIN)]),
+    ("DUE", lambda: datetime(2024, 5, 1, 10, 0, tzinfo=UTC), lambda: datetime(2024, 5, 1, 12, 0, tzinfo=BERLIN)),
 ]
 
 
